@@ -30,7 +30,10 @@ def load(target='lib', config=None, fresh=True):
             # binaries call into the library: add the library bodies as well
             ltext, _ = dump.get_mir('lib')
             items = mirparse.parse_items(ltext) + items
-        defs = rustdefs.Defs(dump.source_root(), SRC_FILES)
+        # the target's own root file is scanned last, so that its definitions win over equally named ones elsewhere
+        own = {'rsbdd': 'src/bin/rsbdd.rs'}.get(target, '%s/src/main.rs' % target)
+        files = [f for f in SRC_FILES if f != own] + ([own] if own in SRC_FILES else [])
+        defs = rustdefs.Defs(dump.source_root(), files)
         _loaded[key] = (items, defs, info)
     items, defs, info = _loaded[key]
     I = Interp(items, defs, Models(), config)
@@ -68,6 +71,12 @@ class World:
             return idv
         if not getattr(self, 'distinct_names', False):
             name = 'v'
+        elif isinstance(idv, OrdId) and idv.atoms is self.atoms:
+            # the name follows the atom: a guarded choice among the k names
+            nm = None
+            for i in sorted(idv.alts):
+                nm = self._name(self.names[i]) if nm is None else merge(idv.alts[i], self._name(self.names[i]), nm)
+            return mk_struct('NamedSymbol', [mk_rc(nm), idv])
         return mk_struct('NamedSymbol', [mk_rc(self._name(name)), idv])
 
     def _name(self, name):
